@@ -319,7 +319,8 @@ def drive_create(case):
                         tag = "discard-flag-missing"
                     res.bad(tag, "sent flags %r, requested %r (line %r)" % (sorted(req.flags), sorted(exp_flags), adds[0]))
                 if not ports_match(expected_ports(case), req.ports):
-                    res.bad("wrong-ports", "sent %r, requested %r" % (req.ports, expected_ports(case)))
+                    res.bad("wrong-ports", "sent %r, requested %r (requested target None = any explicit 127.0.0.1/localhost:port)" % (
+                        req.ports, expected_ports(case)))
                 exp_auth = sorted((n, tok) for n, tok in auth) if auth is not None else []
                 if sorted(req.client_auth, key=lambda c: c[0]) != [tuple(x) for x in exp_auth] or req.client_auth_v3:
                     res.bad("wrong-client-auth", "sent %r, requested %r" % (req.client_auth, exp_auth))
@@ -458,7 +459,7 @@ TRI = st.sampled_from([None, False, True, True])
 @st.composite
 def cases(draw):
     api = draw(st.sampled_from(["ephemeral", "auth", "auth", "tor"]))
-    version = draw(st.sampled_from([2, 3]))
+    version = draw(st.sampled_from([2, 2, 2, 3] if api == "auth" else [2, 3]))
     auth = draw(auths()) if api == "auth" else None
     return {
         "api": api, "version": version,
